@@ -1,0 +1,28 @@
+//go:build verif
+
+// Contracts for the deductive checker in /verif (comment-only; compiled only with -tags verif).
+package packfile
+
+//@ func decodeObjTypeAndLen
+//@   props C17 C18
+//@   requires r != nil
+//@   modifies stream(r)
+//@   ensures [C18] err == nil ==> pos(r) >= old(pos(r)) + 2 && objType == (streamByte(r, old(pos(r))) / 16) % 8
+//@   ensures [C18] err == nil ==> streamByte(r, pos(r) - 1) < 128 && forall(k, old(pos(r)), pos(r) - 1, streamByte(r, k) >= 128 || k == old(pos(r)))
+//@   ensures [C17] allocated <= old(allocated) + 64
+//@   loop 1 invariant [C17] allocated <= old(allocated) + 64
+//@   loop 1 invariant pos(r) >= old(pos(r)) + 1 && len(b) == 1 && bits == 4 + 7*(pos(r) - old(pos(r)) - 1) && forall(k, old(pos(r)) + 1, pos(r), streamByte(r, k) >= 128)
+//@   loop 1 decreases streamLen(r) - pos(r)
+//@   replay decodeObjTypeAndLen($r)
+
+//@ func (*PackfileReader).ReadObject
+//@   props C17 C18
+//@   requires r.r != nil
+//@   modifies stream(r.r)
+//@   ensures [C18] err == nil && objType != 0 ==> forall(k, 0, len(b), b[k] == streamByte(r.r, pos(r.r) - len(b) + k))
+//@   ensures [C17] allocated <= old(allocated) + 8*consumed(r.r) + 2097152 + 4096
+//@   loop 1 invariant read <= u && read <= len(b) && (u == 0 || len(b) >= 1) && cap(b) == len(b) && fresh(b) && u <= 1099511627776
+//@   loop 1 invariant forall(k, 0, read, b[k] == streamByte(r.r, pos(r.r) - read + k)) && pos(r.r) >= old(pos(r.r)) + read
+//@   loop 1 invariant [C17] allocated <= old(allocated) + 2*len(b) + 4096 && len(b) <= max(1048576, 2*read)
+//@   loop 1 decreases u - read
+//@   replay func() (int, []byte, error) { pr := &PackfileReader{r: io.NopCloser($r)}; return pr.ReadObject() }()
